@@ -180,14 +180,37 @@ fn walk<const D: usize>(hid: usize, rng: &mut Rng, out: &mut Out, steps: usize, 
         let ck = *rng.pick(&cks);
         let a = rng.below((D + 1) as u64) as u8;
         let b = (a + 1 + rng.below(D as u64) as u8) % (D as u8 + 1);
-        let kind = match rng.below(8) { 0 | 1 => 0u64, 2..=5 => 2, 6 => 3, _ => 4 };
-        if kind == 2 && D < 3 { continue; }
+        // k = 1 insert / remove recycle vertex slots (key versions then differ inside one cell),
+        // which is when hash- or order-based guards have to prove themselves
+        let kind = match rng.below(11) { 0 | 1 => 0u64, 2..=5 => 2, 6 => 3, 7 => 4, 8 | 9 => 5, _ => 6 };
+        if (kind == 2 || kind == 4) && D < 3 { continue; }
+        if kind == 3 && D < 3 { continue; }
+        if kind == 5 && w.dt.number_of_vertices() > np + 6 { continue; }
         let before = fingerprint(w.dt.tds());
         let vs: Vec<_> = w.dt.tds().get_cell(ck).map(|c| c.vertices().to_vec()).unwrap_or_default();
         let (name, r) = match kind {
             0 => ("k2", catch(|| w.dt.flip_k2(FacetHandle::new(ck, a)).map_err(|_| ()))),
             2 => ("k3", catch(|| w.dt.flip_k3(RidgeHandle::new(ck, a, b)).map_err(|_| ()))),
             3 => ("k2inv", catch(|| w.dt.flip_k2_inverse_from_edge(EdgeKey::new(vs[a as usize], vs[b as usize])).map_err(|_| ()))),
+            5 => {
+                // dyadic interior point of the cell
+                let mut p = [0.0f64; D];
+                let denom = if D % 2 == 0 { 16.0 } else { 8.0 };
+                let wts = [1.0, 2.0, 1.0, 4.0, 2.0, 1.0, 1.0];
+                let mut wsum = 0.0;
+                for (j, vk) in vs.iter().enumerate() {
+                    if let Some(v) = w.dt.tds().get_vertex_by_key(*vk) { for i in 0..D { p[i] += wts[j % 7] * v.point().coords()[i] / denom; } }
+                    wsum += wts[j % 7];
+                }
+                if let Some(v0) = vs.first().and_then(|k| w.dt.tds().get_vertex_by_key(*k)) { for i in 0..D { p[i] += (denom - wsum) * v0.point().coords()[i] / denom; } }
+                let v = w.vertex(p, rng);
+                ("k1", catch(|| w.dt.flip_k1_insert(ck, v).map_err(|_| ())))
+            }
+            6 => {
+                let keys = w.live_keys();
+                let vk = *rng.pick(&keys);
+                ("k1inv", catch(|| w.dt.flip_k1_remove(vk).map_err(|_| ())))
+            }
             _ => {
                 let c3 = (0..=(D as u8)).find(|x| *x != a && *x != b).unwrap_or(0);
                 ("k3inv", catch(|| w.dt.flip_k3_inverse_from_triangle(TriangleHandle::new(vs[a as usize], vs[b as usize], vs[c3 as usize])).map_err(|_| ())))
@@ -196,8 +219,17 @@ fn walk<const D: usize>(hid: usize, rng: &mut Rng, out: &mut Out, steps: usize, 
         match r {
             Ok(Ok(info)) => {
                 done += 1;
+                // a removed vertex (inverse k = 1) no longer resolves: ids come from the uuid table
+                // filled while it was alive (cell_sets of the previous steps registered it)
                 let rr = w.vk_ids(&info.removed_face_vertices);
                 let ii = w.vk_ids(&info.inserted_face_vertices);
+                if rr.contains(&999_999) || ii.contains(&999_999) {
+                    // the face of an inverse k = 1 move contains the deleted vertex: restart the
+                    // model from the new cell set instead of stepping it
+                    let post = w.cell_sets();
+                    out.line(&format!("rs {}", js(&post)));
+                    continue;
+                }
                 let post = w.cell_sets();
                 out.line(&format!("st {name} {} {} {}", j(&rr), j(&ii), js(&post)));
             }
@@ -222,6 +254,7 @@ pub fn run(cfg: &Cfg, rng: &mut Rng, out: &mut Out) {
     }
     let nw = if thorough { 12 } else { 3 };
     for h in 0..nw {
+        walk::<2>(h, rng, out, if thorough { 800 } else { 400 }, 10);
         walk::<3>(h, rng, out, if thorough { 800 } else { 400 }, 12);
         walk::<4>(h, rng, out, if thorough { 1200 } else { 600 }, 13 + h % 2);
         walk::<5>(h, rng, out, if thorough { 600 } else { 300 }, 9);
